@@ -109,6 +109,32 @@ func (m c15) Run(ctx *core.Ctx) {
 		ctx.Begin(cs)
 		m.Exec(ctx, cs)
 	}
+	// inputs with very many non-fatal validation errors, followed (or not) by a fatal one
+	for k := 0; k < 6; k++ {
+		cnt := gen.Pick(r, []int{1001, 1024, 1100, 4097, 10000})
+		many := gen.Pick(r, []string{"http:" + strings.Repeat("/", cnt), "http://h/" + strings.Repeat(" a", cnt), "http://h/?" + strings.Repeat("%", cnt), "a:" + strings.Repeat("\u00a0 ", cnt) + "//"})
+		tail := gen.Pick(r, []string{"exa mple.com/", "1.2.3.4.5/", "h:99999/", "[::1/", "h/ok", "", "#f", "h:8a/"})
+		cs := &core.Case{Check: "many-errors", Input: core.S(many + tail)}
+		ctx.Begin(cs)
+		m.Exec(ctx, cs)
+	}
+	// reporting combined with other parser options: what is recorded on an accepted URL is non-fatal
+	nc := split(tierN(ctx.Tier, 100_000, 3_000_000), ctx.Shard, ctx.NShards)
+	for i := int64(0); i < nc; i++ {
+		cfg := []string{"report"}
+		for _, o := range randomConfig(r) {
+			if _, isCanon := optionForIsCanon(o); !isCanon && o != "report" && o != "failonerr" {
+				cfg = append(cfg, o)
+			}
+		}
+		in := gen.Input(r)
+		if r.IntN(3) == 0 {
+			in = gen.Pick(r, []string{"http://", "https://", "ws://"}) + gen.Host(r) + "/"
+		}
+		cs := &core.Case{Check: "entries-config", Input: core.S(in), Config: cfg}
+		ctx.Begin(cs)
+		m.Exec(ctx, cs)
+	}
 	for i := int64(0); i < n; i++ {
 		in := gen.Input(r)
 		if r.IntN(4) == 0 {
@@ -192,6 +218,24 @@ func (m c15) Exec(ctx *core.Ctx, cs *core.Case) {
 	}
 	if cs.Check == "shared-base" {
 		m.sharedBase(ctx, cs, doc)
+		return
+	}
+	if cs.Check == "entries-config" {
+		p := buildParser(cs.Config)
+		u, err, pan := parseImpl(ctx, p, string(cs.Input), "", false, false)
+		if pan != nil || err != nil || u == nil {
+			return
+		}
+		ctx.Nontrivial()
+		ctx.Count("entries_config_urls")
+		for _, e := range u.ValidationErrors() {
+			t := string(errors.Type(e))
+			if errors.Failure(e) || t == "" || !doc[t] {
+				ctx.Violate("an entry recorded on a URL that was accepted (reporting combined with other parser options) is marked as a failure or has no documented type",
+					"non-fatal, documented", fmt.Sprintf("failure=%v type=%q", errors.Failure(e), t), strings.Join(cs.Config, ",")+": "+e.Error())
+				return
+			}
+		}
 		return
 	}
 	input, base := string(cs.Input), string(cs.Base)
